@@ -259,7 +259,10 @@ func (p *Parser) parseCallExpression(function Expression) Expression {
 func (p *Parser) parseIndexExpression(left Expression) Expression {
 	expression := &IndexExpression{Token: p.curToken, Left: left, Type: ObjectTypeList}
 
-	p.nextToken()
+	// "." and "[" have to be followed by a name or an index
+	if !p.expectPeek(IDENT) {
+		return nil
+	}
 
 	expression.Index = p.parseIdentifier()
 
